@@ -67,7 +67,14 @@ package magic
 //@   loop 1 invariant [C13_wand] isSuffixView(raw, dropped) && (linesOK(raw) ==> linesOK(dropped))
 //@   loop 1 decreases len(raw)
 
+// end(s): address one past the last byte of s. The delimiter-separated reader must be fed the
+// input up to exactly the point where dropLastLine cuts the original input (leading bytes may be
+// skipped, the end may not move).
+//@ spec endOf(s) = off(s) + len(s)
 //@ func magic.sv
+//@   ghost loop 1 entry: svInput = in
+//@   ensures [C13_sv_whole] limit == 0 || len(in) < limit ==> endOf(svInput) == endOf(in)
+//@   ensures [C13_sv_cut] limit != 0 && len(in) == limit && (exists i :: 0 < i && i < len(in) && in[i] == '\n') ==> off(in) < endOf(svInput) && endOf(svInput) < endOf(in) && in[endOf(svInput) - off(in)] == '\n' && (forall j :: endOf(svInput) - off(in) < j && j < len(in) ==> in[j] != '\n')
 //@   loop 1 assume 0 <= lines && lines <= 4611686018427387904
 //@   loop 1 terminates encoding/csv.Reader returns io.EOF after the last record of a finite in-memory input
 
